@@ -805,7 +805,7 @@ class Session(Gen):
         return self
 
 
-def id_lifecycle_cases(rng, chmax, length, stride=1, offset=0, prefix="i"):
+def id_lifecycle_cases(rng, chmax, length, stride=1, offset=0, prefix="i", listeners=False):
     """EVERY sequence of `length` operations from {open with an automatic id, open id k, close k}
     on a connection with `channel_max` = chmax (every `stride`-th), a call left in flight on each
     channel that stays open, then every open channel gets its own, distinguishable reply."""
@@ -826,6 +826,10 @@ def id_lifecycle_cases(rng, chmax, length, stride=1, offset=0, prefix="i"):
                 if got is not None:
                     g.bind_opened(h, got)
                     by_ch[got] = h
+                    if listeners:
+                        # a confirm and a return listener from the first moment of the channel's life
+                        for what in ("setconf", "setret"):
+                            g.op("send %s %s %s" % (h, what, g.new_listener())); g.op("ev %d" % got)
             elif o.startswith("sclos"):
                 # the server closes channel k (if open): the client answers CloseOk, the id is free again
                 k = int(o[5:])
@@ -849,7 +853,13 @@ def id_lifecycle_cases(rng, chmax, length, stride=1, offset=0, prefix="i"):
             g.feed([queue_declare_ok(k, "q-%s" % by_ch[k], k, 100 + k)])
         for k in sorted(by_ch):
             g.op("recv %s -" % by_ch[k]); g.op("recv %s -" % by_ch[k])
-        g.op("dump")
+        if listeners:
+            for k in sorted(by_ch):
+                g.feed([ack(k, 10 + k, False)])
+                g.feed([ret(k, 312, "NO_ROUTE", "ex", "rk%d" % k), header(k, 1), body(k, bytes([48 + k]))])
+            g.finish()
+        else:
+            g.op("dump")
         cases.append(g.case("%s%d" % (prefix, n)))
     return cases
 
@@ -939,6 +949,35 @@ def water_mark_cases(rng, prefix="w"):
                 g.op("dump")
                 g.op("wscript w:1000000"); g.op("write"); g.op("dump")
                 g.op("ev 1"); g.op("dump")
+                n += 1
+                cases.append(g.case("%s%d" % (prefix, n)))
+    return cases
+
+
+def close_mid_content_cases(rng, prefix="y"):
+    """The server closes channel 1 in the middle of a content-bearing message on it (after the method,
+    after the header, after the first of two body frames; delivery / get answer / returned message):
+    the half-received message is discarded with the channel, channel 2 carries on (a call and a
+    delivery afterwards)."""
+    cases = []
+    n = 0
+    for kind in ("deliver", "get", "return"):
+        for stage in (1, 2, 3):
+            for code in (404, 200):
+                g = Gen(rng, chmax=3, bound=4, via_stream=rng.choice([0.0, 1.0]))
+                h1 = g.open_channel(1); g.bind_opened(h1, 1)
+                h2 = g.open_channel(2); g.bind_opened(h2, 2)
+                g.consume(h1, "t1")
+                cl2 = g.consume(h2, "t2")
+                first = {"return": ret(1, 312, "NO_ROUTE", "ex", "rk"), "deliver": deliver(1, "t1", 1, False, "", "k"), "get": get_ok(1, 1, False, "e", "k", 0)}[kind]
+                if kind == "get":
+                    g.op("send %s send %s" % (h1, hx(amqp.client_only_samples(1)["basic.get"]))); g.op("ev 1")
+                frs = [first, header(1, 6), body(1, b"abc"), body(1, b"def")]
+                g.feed(frs[:stage] + [chan_close(1, code, "closing")])
+                g.op("wscript w:1000000"); g.op("write")
+                g.rpc(h2)
+                g.feed(g.deliver(cl2))
+                g.finish()
                 n += 1
                 cases.append(g.case("%s%d" % (prefix, n)))
     return cases
